@@ -594,24 +594,29 @@ def select__distinct_values(self: XPathFunction, context: ta.ContextType = None)
 
     def distinct_values(case_insensitive: bool = False) -> Iterator[AtomicType]:
         nan = False
-        results: list[AtomicType] = []
+        keys: list[Any] = []
         for value in self[0].atomization(context):
-            if case_insensitive and isinstance(value, (str, bytes)):
-                value = value.casefold()
+            key: Any = value
+            if isinstance(value, UntypedAtomic):
+                key = str(value)  # xs:untypedAtomic values are compared as xs:string
+            if case_insensitive and isinstance(key, (str, bytes)):
+                value = key = key.casefold()
 
-            if isinstance(value, (float, Decimal)):
-                if math.isnan(value):
+            if isinstance(key, (float, Decimal)):
+                if math.isnan(key):
                     if not nan:
                         yield value
                         nan = True
-                elif all(not is_close(value, x)
-                         for x in results if isinstance(x, (int, Decimal, float))):
+                elif all(not is_close(key, x) for x in keys
+                         if isinstance(x, (int, Decimal, float)) and not isinstance(x, bool)):
                     yield value
-                    results.append(value)
+                    keys.append(key)
 
-            elif value not in results:
+            elif all(isinstance(x, bool) is not isinstance(key, bool) or x != key
+                     for x in keys):
+                # xs:boolean values are not comparable with numeric values (True == 1 in Python)
                 yield value
-                results.append(value)
+                keys.append(key)
 
     if len(self) < 2:
         collation = self.parser.default_collation
